@@ -909,7 +909,14 @@ impl GlyphDataOffsetArray for Gvar<'_> {
             flags &= 0b11111110;
         }
 
-        let max_new_size = orig_size + offsets.data.len();
+        // The serializer cannot pack a zero length object, so when no glyph has
+        // any variation data emit a single padding byte; no offset refers to it.
+        let glyph_data: &[u8] = if offsets.data.is_empty() {
+            &[0]
+        } else {
+            &offsets.data
+        };
+        let max_new_size = orig_size + glyph_data.len();
 
         // part 1 and 2 - write gvar header and offsets
         let mut serializer = Serializer::new(max_new_size);
@@ -924,7 +931,7 @@ impl GlyphDataOffsetArray for Gvar<'_> {
         // part 4 - write new glyph variation data
         serializer
             .push()
-            .and(serializer.embed_bytes(&offsets.data))
+            .and(serializer.embed_bytes(glyph_data))
             .map_err(PatchingError::from)?;
 
         let glyph_data_obj = serializer
